@@ -173,6 +173,34 @@ func RuntimeDraws() uint64
 //go:linkname RuntimeTraceCallers runtime.verifTraceCallers
 func RuntimeTraceCallers(on bool) []uintptr
 
+// Seeded yields. With the patched runtime a goroutine runs until it blocks, so goroutines interleave only at
+// blocking operations; the simulated disk, network and Raft library never block. Yield is called by those
+// seams at the points where the real thing would (a file operation, a socket read or write, a proposal or
+// read handed to Raft): on a keyed subset of calls it gives the processor away (runtime.Gosched, which the
+// patched runtime queues deterministically). How often is drawn per run - never, rarely, sometimes, often -
+// so that both the tightly serialised and the heavily interleaved executions are explored.
+var yieldState struct {
+	seed, permille, n, fired uint64
+}
+
+func setYield(seed uint64) {
+	yieldState.seed = seed
+	yieldState.permille = []uint64{0, 0, 20, 120, 450}[Mix(seed, 0x7969656c64)%5]
+	yieldState.n, yieldState.fired = 0, 0
+}
+
+// Yield may give the processor to another runnable goroutine (see above).
+func Yield() {
+	if yieldState.permille == 0 {
+		return
+	}
+	yieldState.n++
+	if Mix(yieldState.seed, yieldState.n)%1000 < yieldState.permille {
+		yieldState.fired++
+		runtime.Gosched()
+	}
+}
+
 // RunSeed derives the seed of run i of a batch.
 func RunSeed(batch uint64, prop string, i int) uint64 {
 	return Mix(batch, HashString(prop), uint64(i))
@@ -250,6 +278,7 @@ func (sp *Spec) execOnce(t *testing.T, s Schedule) *Outcome {
 	// the package-level math/rand source (jitter in regatta, gRPC, memberlist) starts every run from the run
 	// seed; needs //go:debug randautoseed=0 and randseednop=0 in the test main package
 	mrand.Seed(int64(Mix(sp.rtSeed, 0x6d72616e64))) //nolint:staticcheck
+	setYield(Mix(sp.rtSeed, 0x7969656c6473))
 	if os.Getenv("VERIF_LOG") == "4" {
 		mrand.VerifHook = func() {
 			var pcs [6]uintptr
@@ -277,6 +306,10 @@ func (sp *Spec) execOnce(t *testing.T, s Schedule) *Outcome {
 		}()
 	}
 	out, pv, stack := ExecInBubble(t, func() *Outcome { return sp.Exec(s) })
+	if out != nil && yieldState.fired > 0 {
+		out.Probes["sched-yields-at-io-seams"] += int64(yieldState.fired)
+	}
+	yieldState.permille = 0
 	// Two collections empty every sync.Pool: pooled objects that embed channels
 	// (Pebble's sstable write tasks) must never travel from one bubble to the next.
 	sp.nexec++
